@@ -95,17 +95,135 @@ func (i *interpreter) global(g *ssa.Global) *value {
 		}
 	}
 	cell := zero(mustDeref(g.Type()))
+	p := &cell
+	i.globals[g] = p
 	if st == 3 {
 		key := pkg.Pkg.Path() + "." + g.Name()
 		if mk, ok := lazyGlobals[key]; ok {
-			cell = mk(i, g)
+			*p = mk(i, g)
 		} else if !zeroOKGlobals[key] && !zeroOKPackages[pkg.Pkg.Path()] && !strings.HasSuffix(g.Name(), "$guard") {
-			panic(unsupported("global " + key + " of a package whose initialiser is not interpreted"))
+			// run just the slice of the package initialiser that computes g
+			if err := i.sliceInitGlobal(g); err != "" {
+				delete(i.globals, g)
+				panic(unsupported("global " + key + " of a package whose initialiser is not interpreted: " + err))
+			}
 		}
 	}
-	p := &cell
-	i.globals[g] = p
 	return p
+}
+
+// rootGlobal returns the global an address expression is rooted at.
+func rootGlobal(v ssa.Value) *ssa.Global {
+	for {
+		switch x := v.(type) {
+		case *ssa.Global:
+			return x
+		case *ssa.FieldAddr:
+			v = x.X
+		case *ssa.IndexAddr:
+			v = x.X
+		default:
+			return nil
+		}
+	}
+}
+
+// sliceInitGlobal evaluates the part of g's package initialiser that
+// computes g: the stores into g and the instructions they depend on.  A
+// global without any store keeps its zero value.  Returns "" on success.
+func (i *interpreter) sliceInitGlobal(g *ssa.Global) string {
+	initFn := g.Pkg.Func("init")
+	if initFn == nil || initFn.Blocks == nil {
+		return ""
+	}
+	need := map[ssa.Instruction]bool{}
+	var work []ssa.Value
+	found := false
+	for _, b := range initFn.Blocks {
+		for _, in := range b.Instrs {
+			if st, ok := in.(*ssa.Store); ok && rootGlobal(st.Addr) == g {
+				need[st] = true
+				work = append(work, st.Addr, st.Val)
+				found = true
+			}
+			// map-typed globals initialised by MapUpdate on a loaded map
+			if mu, ok := in.(*ssa.MapUpdate); ok {
+				if ld, ok := mu.Map.(*ssa.UnOp); ok && rootGlobal(ld.X) == g {
+					need[mu] = true
+					work = append(work, mu.Map, mu.Key, mu.Value)
+				}
+			}
+		}
+	}
+	if !found {
+		return ""
+	}
+	for len(work) > 0 {
+		v := work[len(work)-1]
+		work = work[:len(work)-1]
+		in, ok := v.(ssa.Instruction)
+		if !ok || need[in] {
+			continue
+		}
+		if in.Parent() != initFn {
+			continue
+		}
+		switch x := in.(type) {
+		case *ssa.Phi, *ssa.Select, *ssa.Go, *ssa.Defer:
+			return fmt.Sprintf("initialiser uses %T", x)
+		}
+		need[in] = true
+		for _, op := range in.Operands(nil) {
+			if *op != nil {
+				work = append(work, *op)
+			}
+		}
+		// an Alloc/MakeMap/MakeSlice is filled by stores through it
+		if val, ok := in.(ssa.Value); ok {
+			if refs := val.Referrers(); refs != nil {
+				switch in.(type) {
+				case *ssa.Alloc, *ssa.MakeMap, *ssa.MakeSlice, *ssa.FieldAddr, *ssa.IndexAddr, *ssa.Slice:
+					for _, r := range *refs {
+						switch r := r.(type) {
+						case *ssa.Store:
+							if r.Addr == val && !need[r] {
+								need[r] = true
+								work = append(work, r.Val)
+							}
+						case *ssa.MapUpdate:
+							if r.Map == val && !need[r] {
+								need[r] = true
+								work = append(work, r.Key, r.Value)
+							}
+						case *ssa.FieldAddr, *ssa.IndexAddr:
+							work = append(work, r.(ssa.Value))
+						}
+					}
+				}
+			}
+		}
+	}
+	fr := &frame{i: i, fn: initFn, env: make(map[ssa.Value]value)}
+	fr.locals = make([]value, len(initFn.Locals))
+	for k, l := range initFn.Locals {
+		fr.locals[k] = zero(mustDeref(l.Type()))
+		fr.env[l] = &fr.locals[k]
+	}
+	n := 0
+	for _, b := range initFn.Blocks {
+		fr.block = b
+		for _, in := range b.Instrs {
+			if !need[in] {
+				continue
+			}
+			n++
+			if n > 20000 {
+				return "initialiser slice too large"
+			}
+			visitInstr(fr, in)
+		}
+	}
+	return ""
 }
 
 // classifyPanic is applied to every panic recovered while unwinding target
